@@ -46,11 +46,11 @@ PairsOK(t) == /\ Len(t.pair) = NAt(t)
               /\ \A a \in DOMAIN t.pair : Len(t.pair[a]) = NPt(t) /\ \A p \in DOMAIN t.pair[a] : PairRowOK(t.pair[a][p])
 SubsetOK(t, seq) == seq # <<>> /\ SetOf(seq) \subseteq 1..NAt(t) /\ Cardinality(SetOf(seq)) = Len(seq)
 EventOK(t, e) ==
-  CASE e.ev = "Eval" -> SubsetOK(t, e.set)
+  CASE e.ev = "Eval" -> e.set = <<>> \/ SubsetOK(t, e.set)            \* the empty atom set has no density
     [] e.ev = "Permute" -> IsPermutation(e.perm, NAt(t))
     [] e.ev = "Move" -> e.pose \in DOMAIN t.poses
     [] e.ev = "Split" -> SubsetOK(t, e.s1) /\ SubsetOK(t, e.s2) /\ SetOf(e.s1) \cap SetOf(e.s2) = {}
-    [] e.ev = "Complement" -> /\ SubsetOK(t, e.a) /\ SubsetOK(t, e.b) /\ SetOf(e.a) \cap SetOf(e.b) = {}
+    [] e.ev = "Complement" -> /\ SubsetOK(t, e.a) /\ (e.b = <<>> \/ SubsetOK(t, e.b)) /\ SetOf(e.a) \cap SetOf(e.b) = {}
                               /\ Len(e.bg) = NPt(t) /\ \A p \in DOMAIN e.bg : e.bg[p] >= 0 /\ e.bg[p] <= MaxVal
     [] OTHER -> FALSE
 Guard(t) ==
@@ -76,6 +76,7 @@ EvalClause(t, e) ==
      ELSE IF e.argmut THEN "ArgumentMutated"
      ELSE IF ~(VecOK(t, e.obs) /\ VecOK(t, e.sgn)) THEN "Shape"
      ELSE IF e.off THEN "OnGrid"
+     ELSE IF S = {} THEN (IF \A p \in Pts(t) : e.obs[p] = 0 /\ e.sgn[p] = 0 THEN "" ELSE "EmptySet")
      ELSE IF ~AllPositive(e.sgn) THEN "Positive"
      ELSE IF \E p \in Pts(t) : ~SetRhoOK(iv, S, p, e.obs[p]) THEN LerpName(S)
      ELSE IF k > 1 /\ (\A a \in S : <<{a}, pose>> \in DOMAIN memo)
